@@ -2,6 +2,7 @@ package main
 
 import (
 	"encoding/json"
+	"sync/atomic"
 	"fmt"
 	"strings"
 	"sync"
@@ -18,6 +19,7 @@ import (
 func init() { register("C10", checkC10) }
 
 type sfBeh struct {
+	SyncScript []string   `json:"syncScript"`
 	Script  [][]string `json:"script"`
 	Term    []bool     `json:"term"`
 	Got     [][]int    `json:"got"`
@@ -78,7 +80,7 @@ func checkC10(c *Ctx) {
 	// sink failures
 	ne := fmt.Sprint(c.Pick(2, 3))
 	c.MustTLC(TLCOpts{Module: "SinkFaults", Cfg: "SinkFaults.check", Consts: map[string]string{"NEntries": ne}})
-	for _, m := range []map[string]string{{"Loop": `"break"`}, {"ReportRule": `"after-hook"`}, {"ReportRule": `"never"`}} {
+	for _, m := range []map[string]string{{"Loop": `"break"`}, {"ReportRule": `"after-hook"`}, {"ReportRule": `"never"`}, {"SyncLoop": `"break"`}} {
 		c.MustTLC(TLCOpts{Module: "SinkFaults", Cfg: "SinkFaults.check", Consts: m, ExpectViolation: true})
 	}
 	var mu sync.Mutex
@@ -110,7 +112,7 @@ func checkC10(c *Ctx) {
 	}
 	c.Set("sink_fault_scripts", int64(n))
 	c.Set("exhaustive", true)
-	c.Set("rule", "every fault-carrying behaviour of JsonEnc.tla inside the generator bounds; every (entry, core) failure script of SinkFaults.tla for 1-3 cores x "+ne+" entries, each through 8 compositions / front ends")
+	c.Set("rule", "every fault-carrying behaviour of JsonEnc.tla inside the generator bounds; every (entry, core) failure script of SinkFaults.tla for 1-3 cores x "+ne+" entries, each through 11 compositions / front ends, followed by a Logger.Sync with scripted Sync failures")
 }
 
 type sfSink struct {
@@ -120,10 +122,13 @@ type sfSink struct {
 	accepted []string
 	attempts int
 	syncs    int
+	finalSyncs int
 }
 type sfWorld struct {
-	script [][]string
-	cur    int // entry being logged (0-based)
+	script     [][]string
+	syncScript []string
+	final      bool // the final Logger.Sync is in progress
+	cur        int  // entry being logged (0-based)
 }
 
 func (s *sfSink) Write(p []byte) (int, error) {
@@ -136,7 +141,18 @@ func (s *sfSink) Write(p []byte) (int, error) {
 	s.accepted = append(s.accepted, string(p))
 	return len(p), nil
 }
-func (s *sfSink) Sync() error { s.mu.Lock(); s.syncs++; s.mu.Unlock(); return nil }
+func (s *sfSink) Sync() error {
+	s.mu.Lock()
+	defer s.mu.Unlock()
+	s.syncs++
+	if s.w.final {
+		s.finalSyncs++
+		if s.id < len(s.w.syncScript) && s.w.syncScript[s.id] == "err" {
+			return fmt.Errorf("sync-%d-failed", s.id)
+		}
+	}
+	return nil
+}
 
 // sfFailCore is a user core whose Write fails on request (a "core returns an error").
 type sfFailCore struct {
@@ -154,16 +170,23 @@ func (c *sfFailCore) Write(e zapcore.Entry, _ []zapcore.Field) error {
 }
 func (c *sfFailCore) Sync() error { return nil }
 
-const sfVariants = 8
+const sfVariants = 11
+
+// sfHangs counts logging calls that never returned; after a few, the Lock-wrapped variant is not replayed any more
+// (every further hang would cost its watchdog time)
+var sfHangs int32
 
 func replaySinkFaults(b sfBeh, variant int) (finds []Finding) {
+	if variant == 10 && atomic.LoadInt32(&sfHangs) >= 3 {
+		return nil
+	}
 	add := func(key, f string, a ...interface{}) {
 		if len(finds) < 4 {
 			finds = append(finds, Finding{Key: key, What: fmt.Sprintf(f, a...)})
 		}
 	}
 	nc := len(b.Script[0])
-	w := &sfWorld{script: b.Script}
+	w := &sfWorld{script: b.Script, syncScript: b.SyncScript}
 	sinks := make([]*sfSink, nc)
 	cores := make([]zapcore.Core, nc)
 	enc := func() zapcore.Encoder {
@@ -171,14 +194,19 @@ func replaySinkFaults(b sfBeh, variant int) (finds []Finding) {
 	}
 	for i := range sinks {
 		sinks[i] = &sfSink{id: i, w: w}
-		if variant == 5 && i == 0 {
+		switch {
+		case variant == 5 && i == 0:
 			cores[i] = &sfFailCore{zapcore.DebugLevel, sinks[i]}
-		} else {
+		case variant == 10:
+			// the way zap.Open / Config.Build wrap every sink
+			cores[i] = zapcore.NewCore(enc(), zapcore.Lock(sinks[i]), zapcore.DebugLevel)
+		default:
 			cores[i] = zapcore.NewCore(enc(), sinks[i], zapcore.DebugLevel)
 		}
 	}
 	var core zapcore.Core = zapcore.NewTee(cores...)
-	names := []string{"tee", "hooked(tee)", "sampler(tee)", "tee.With", "lazy(tee)", "tee with a user core", "tee of hooked cores", "tee, sugared"}
+	names := []string{"tee", "hooked(tee)", "sampler(tee)", "tee.With", "lazy(tee)", "tee with a user core", "tee of hooked cores", "tee, sugared",
+		"tee, logger with AddCaller", "tee, logger with AddStacktrace", "tee of Lock-wrapped sinks"}
 	switch variant {
 	case 1:
 		core = zapcore.RegisterHooks(core, func(zapcore.Entry) error { return nil })
@@ -195,7 +223,14 @@ func replaySinkFaults(b sfBeh, variant int) (finds []Finding) {
 		core = zapcore.NewTee(cores...)
 	}
 	errOut := &sfErrOut{}
-	lg := zap.New(core, zap.ErrorOutput(errOut), zap.WithFatalHook(zapcore.WriteThenPanic))
+	lopts := []zap.Option{zap.ErrorOutput(errOut), zap.WithFatalHook(zapcore.WriteThenPanic)}
+	switch variant {
+	case 8:
+		lopts = append(lopts, zap.AddCaller())
+	case 9:
+		lopts = append(lopts, zap.AddStacktrace(zapcore.InfoLevel), zap.AddCaller())
+	}
+	lg := zap.New(core, lopts...)
 	desc := fmt.Sprintf("%s, script %v, terminal %v", names[variant], b.Script, b.Term)
 	for e := range b.Script {
 		w.cur = e
@@ -203,7 +238,9 @@ func replaySinkFaults(b sfBeh, variant int) (finds []Finding) {
 		before := errOut.count()
 		returned := false
 		var rec interface{}
-		func() {
+		finished := make(chan struct{})
+		go func() {
+			defer close(finished)
 			defer func() { rec = recover() }()
 			switch {
 			case b.Term[e] && e%2 == 0:
@@ -221,6 +258,13 @@ func replaySinkFaults(b sfBeh, variant int) (finds []Finding) {
 			}
 			returned = true
 		}()
+		select {
+		case <-finished:
+		case <-time.After(5 * time.Second):
+			atomic.AddInt32(&sfHangs, 1)
+			add("C10/sink:hang", "%s: entry %d: the logging call did not return within 5 s (a destination failed earlier)\n%s", desc, e+1, firstLines(stacks(), 40))
+			return finds
+		}
 		if b.Term[e] {
 			if rec == nil {
 				add("C10/sink:terminal-not-run", "%s: entry %d: the terminal action did not run", desc, e+1)
@@ -254,6 +298,37 @@ func replaySinkFaults(b sfBeh, variant int) (finds []Finding) {
 		if errOut.syncsSince(before) == 0 {
 			add("C10/sink:report-not-synced", "%s: entry %d: the error output was not synced after the report", desc, e+1)
 		}
+	}
+	// the final Logger.Sync reaches every core, whatever the earlier ones return
+	if variant != 2 && len(b.SyncScript) == nc {
+		w.final = true
+		syncDone := make(chan error, 1)
+		go func() { syncDone <- lg.Sync() }()
+		select {
+		case err := <-syncDone:
+			anyErr := false
+			for ci := range sinks {
+				if b.SyncScript[ci] == "err" && !(variant == 5 && ci == 0) {
+					anyErr = true
+					if err == nil || !strings.Contains(err.Error(), fmt.Sprintf("sync-%d-failed", ci)) {
+						add("C10/sink:sync-error-dropped", "%s: Logger.Sync returned %v; the Sync error of core %d is missing", desc, err, ci)
+					}
+				}
+			}
+			_ = anyErr
+			for ci, s := range sinks {
+				if variant == 5 && ci == 0 {
+					continue
+				}
+				if s.finalSyncs == 0 {
+					add("C10/sink:sync-skipped", "%s: Logger.Sync did not reach core %d (Sync outcomes %v)", desc, ci, b.SyncScript)
+				}
+			}
+		case <-time.After(5 * time.Second):
+			add("C10/sink:hang", "%s: Logger.Sync did not return within 5 s\n%s", desc, firstLines(stacks(), 40))
+			return finds
+		}
+		w.final = false
 	}
 	// every healthy destination has every entry it did not fail, in order, as intact lines
 	for ci, s := range sinks {
